@@ -6,7 +6,7 @@ cd "$REPO" || exit 2
 unset RUSTFLAGS
 export CARGO_NET_OFFLINE=true
 OUT=$(mktemp -d)
-cargo nextest run --workspace --no-fail-fast --tool-config-file pb:/w/lib/nextest.toml --profile pb --test-threads 8 --offline > "$OUT/log" 2>&1
+cargo nextest run --workspace --no-fail-fast --tool-config-file pb:/w/lib/nextest.toml --profile pb --test-threads ${BASELINE_THREADS:-8} --offline > "$OUT/log" 2>&1
 J=$(find "$REPO/target/nextest/pb" -name junit.xml | head -1)
 python3 - "$J" <<'PY'
 import json, sys, xml.etree.ElementTree as ET
